@@ -102,6 +102,17 @@ def _fraction_scale(ctx) -> None:
         blk = [n for n in core.walk_fn(fn) if isinstance(n, ast.If) and nun(n.test) == f"_{u}"]
         ok = bool(blk) and isinstance(blk[0].body[0], ast.If) and nun(blk[0].body[0].test) == "fractional" and isinstance(blk[0].body[0].body[0], ast.Raise)
         ctx.ob("FRACTION.last-only", f"py:duration/{u}", ok, f"the {u} arm must reject a component that follows a fractional one", m.rel)
+    order = ["weeks", "years", "months", "days", "hours", "minutes", "seconds"]
+    for node, whole, frac, srcv in splits:
+        unit = srcv.strip("_")
+        if unit not in order or unit in ("weeks", "seconds"):
+            continue        # nothing may follow weeks (exclusive) or seconds (last)
+        blk = getattr(node, "_parent")
+        sets = any(isinstance(s_, ast.Assign) and nun(s_.targets[0]) == "fractional" and core.is_const(s_.value, True)
+                   for s_ in getattr(blk, "body", []))
+        ctx.ob("FRACTION.last-only", f"py:duration/{unit}/marks", sets,
+               f"the branch that accepts a fractional {unit} must record it (`fractional = True`), otherwise the smaller units that "
+               f"follow are accepted and added on top (PT1.5H30M)", m.loc(node))
     for u in ("years", "months"):
         ok = f"raise ParserError('Float {u} in duration are not supported')" in src
         ctx.ob("FRACTION.ym", f"py:duration/{u}", ok, f"fractional {u} must be rejected", m.rel)
@@ -296,6 +307,31 @@ def _rust_order_guards(ctx) -> None:
                f"error `{msg}` is guarded by {[(c[0], [names.get(o, o) for o in c[1]]) for c in conds]}; the guard must test the position of "
                f"the last designator, not whether earlier components are non-zero" if value_based or not positional else
                f"guarded by {[(c[0], [names.get(o, o) for o in c[1]]) for c in conds]}", "rust/src/parsing.rs")
+        # a rank guard must reject the rank it is about to assign: `if last_rank >= K { error } last_rank = K`
+        if "out of order" in msg:
+            for op, ops, gb in positional:
+                loc = next((o for o in ops if names.get(o)), None)
+                kc = next((mirfront.const_val(o) for o in ops if o.startswith("const ")), None)
+                if loc is None or kc is None:
+                    continue
+                tgt = [t for t in f.blocks[gb].succs if t != b.idx]
+                assigned = None
+                cur, hops = (tgt[0] if tgt else None), 0
+                while cur is not None and hops < 8 and assigned is None:
+                    for s in f.blocks[cur].stmts:
+                        if s.dest == loc and s.op == "use" and s.args[0].startswith("const "):
+                            assigned = mirfront.const_val(s.args[0])
+                            break
+                    nxt = f.blocks[cur].succs
+                    cur = nxt[0] if len(nxt) == 1 and not f.blocks[cur].switch else None
+                    hops += 1
+                if assigned is None:
+                    ctx.unverified("ORDER-GUARD.rank", f"rs:parse_duration/bb{b.idx}", f"no `{names[loc]} = <const>` after the guard", "rust/src/parsing.rs")
+                    continue
+                least = kc if op == "Ge" else kc + 1 if op == "Gt" else None
+                ctx.ob("ORDER-GUARD.rank", f"rs:parse_duration/rank{assigned}", least is not None and least <= assigned,
+                       f"designator of rank {assigned} is refused only when {names[loc]} {'>=' if op == 'Ge' else '>' if op == 'Gt' else op} {kc}: "
+                       f"a repeated designator of the same rank must be refused too (PT5M5M)", "rust/src/parsing.rs")
     ctx.count("rust_order_errors", n)
 
 
